@@ -214,24 +214,29 @@ def apply_ghost(text, label, ghost, report):
             text = text[:kw_i] + "/*@L%d*/" % k + text[kw_i:]
     # ---------------- phase A
     for kind, arg, body in secs:
-        if kind == "subst":
+        if kind in ("subst", "norm"):
             n, rest = arg.split(" ", 1)
             old, new = [x.strip() for x in rest.split("==>")]
-            idxs = [m.start() for m in re.finditer(re.escape(old), text)]
+            # whitespace-flexible literal match (so a pattern may span re-indented lines)
+            rx = re.compile(r"\s+".join(re.escape(w) for w in old.split()))
+            hits = list(rx.finditer(text))
             if n == "all":
-                if not idxs:
+                if not hits:
                     raise Undecided("lost anchor in %s: subst `%s`" % (label, old))
-                text = text.replace(old, new)
-                cnt = len(idxs)
+                text = rx.sub(lambda m_: new, text)
+                cnt = len(hits)
             else:
                 n = int(n)
-                if len(idxs) < n:
+                if len(hits) < n:
                     raise Undecided("lost anchor in %s: subst #%d `%s`" % (label, n, old))
-                i = idxs[n - 1]
-                text = text[:i] + new + text[i + len(old):]
+                m_ = hits[n - 1]
+                text = text[:m_.start()] + new + text[m_.end():]
                 cnt = 1
-            report["holes"].append({"item": label, "kind": "expression hole", "old": old, "new": new, "count": cnt,
-                                    "assumed": [l.strip() for l in body if l.strip()]})
+            if kind == "norm":
+                _bump(report, "N10 " + (" ".join(l.strip() for l in body if l.strip()) or "textual normalisation"), cnt)
+            else:
+                report["holes"].append({"item": label, "kind": "expression hole", "old": old, "new": new, "count": cnt,
+                                        "assumed": [l.strip() for l in body if l.strip()]})
         elif kind == "blockhole":
             n, rest = arg.split(" ", 1)
             anchor, fname, params, args, ret = [x.strip() for x in rest.split("|")]
@@ -257,22 +262,63 @@ def apply_ghost(text, label, ghost, report):
                                     "anchor": anchor, "lines": nlines,
                                     "assumed": [l.strip() for l in body if l.strip()]})
     for kind, arg, body in secs:
+        if kind == "closure":
+            # @@ f closure <n> <|params|> ==> <|typed params| -> (r: T)>   + ensures lines (ghost)
+            n, rest = arg.split(" ", 1)
+            old, new = [x.strip() for x in rest.split("==>")]
+            idxs = [m.start() for m in re.finditer(re.escape(old), text)]
+            if len(idxs) < int(n):
+                raise Undecided("lost anchor in %s: closure #%s `%s`" % (label, n, old))
+            i = idxs[int(n) - 1]
+            msk = rustlex.mask(text)
+            j, depth = i + len(old), 0
+            while j < len(msk):
+                ch = msk[j]
+                if ch in "([{":
+                    depth += 1
+                elif ch in ")]}":
+                    if depth == 0:
+                        break
+                    depth -= 1
+                elif ch == "," and depth == 0:
+                    break
+                j += 1
+            cbody = text[i + len(old):j].strip()
+            ghost_lines = "\n".join(tag(["    " + l.strip() for l in body if l.strip()]))
+            text = text[:i] + new + "\n" + ghost_lines + "\n{ " + cbody + " }" + text[j:]
+            _bump(report, "N9 closure parameters typed and result named")
+    for kind, arg, body in secs:
         if kind == "ret":
             name = arg.strip()
             bo = body_or_semi(text)
             head = text[:bo]
-            m = None
-            for m in re.finditer(r"->\s*", rustlex.mask(head)):
-                pass
+            hm = rustlex.mask(head)
+            fm = re.search(r"\bfn\s+\w+", hm)
+            po = hm.index("(", fm.end()) if fm else -1
+            # skip generics: the parameter list is the first '(' after the name at angle depth 0
+            if fm:
+                k, ang = fm.end(), 0
+                while k < len(hm):
+                    if hm[k] == "<":
+                        ang += 1
+                    elif hm[k] == ">" and hm[k - 1] != "-":
+                        ang -= 1
+                    elif hm[k] == "(" and ang == 0:
+                        po = k
+                        break
+                    k += 1
+            pc = rustlex.match_brace(hm, po)
+            m = re.match(r"\s*->\s*", hm[pc + 1:])
             if m is None:
                 raise Undecided("no return type in %s" % label)
-            ty = head[m.end():].rstrip()
+            tstart = pc + 1 + m.end()
+            ty = head[tstart:].rstrip()
             wh = ""
             mw = re.search(r"\n\s*where\b", ty)
             if mw:
                 wh = ty[mw.start():]
                 ty = ty[:mw.start()]
-            text = head[:m.start()] + "-> (%s: %s)%s " % (name, ty.strip(), wh) + text[bo:]
+            text = head[:pc + 1] + " -> (%s: %s)%s " % (name, ty.strip(), wh) + text[bo:]
             _bump(report, "N7 return value named")
     # N4 desugaring and N5 iterator naming (loops addressed through their /*@Lk*/ markers)
     def marked_loop(k):
@@ -310,7 +356,10 @@ def apply_ghost(text, label, ghost, report):
             cb = rustlex.match_brace(rustlex.mask(text), brace_i)
             itn = "it__%d" % k
             mk = "/*@L%d*/" % k
-            head = "{ let mut %s = %s; %sloop { match %s.nxt() { None => break, Some(%s) => {" % (itn, newit, mk, itn, m.group(1))
+            if newit.startswith("@"):
+                head = "{ %sloop { match %s { None => break, Some(%s) => {" % (mk, newit[1:], m.group(1))
+            else:
+                head = "{ let mut %s = %s; %sloop { match %s.nxt() { None => break, Some(%s) => {" % (itn, newit, mk, itn, m.group(1))
             text = text[:kw_i - len(mk)] + head + text[brace_i + 1:cb] + "} } } }" + text[cb + 1:]
             _bump(report, "N4 for-loop desugared to loop/match over a specified iterator")
     for kind, arg, body in secs:
@@ -341,7 +390,7 @@ def apply_ghost(text, label, ghost, report):
                 continue
             if kind == "body":
                 # desugared loops: the real body starts after `Some(PAT) => {`
-                m = re.match(r"\{ match it__%d\.nxt\(\) \{ None => break, Some\(.*?\) => \{" % k, text[brace_i:])
+                m = re.match(r"\{ match [^{]*? \{ None => break, Some\(.*?\) => \{", text[brace_i:])
                 at = brace_i + (m.end() if m else 1)
             else:
                 at = rustlex.match_brace(rustlex.mask(text), brace_i) + 1
